@@ -345,7 +345,7 @@ def res_type_hint(res, tbl):
     return "f64"
 
 
-def ref_agree(tbl, ref, single, zero_sign=False):
+def ref_agree(tbl, ref, single, zero_sign=False, exact=False):
     """the library's scalar results (tbl) against independent reference values (ref; '?' = no reference): NaN with
     NaN, infinities exactly, finite values within a relative bound that does not pin the algorithm"""
     import math
@@ -376,19 +376,21 @@ def ref_agree(tbl, ref, single, zero_sign=False):
             return False
         elif zero_sign and w == 0.0 and g == 0.0 and math.copysign(1.0, w) != math.copysign(1.0, g):
             return False                      # the sign of a zero result is part of the function (abs(-0.0) = +0.0)
+        elif exact and g != w:
+            return False                      # whole-number valued functions (rint, floor, ..): no tolerance
         elif abs(g - w) > tol * max(abs(w), sc if (sc is not None and sc == sc and sc != float("inf")) else 0.0, 1e-300) \
                 and abs(g - w) > (1e-37 if single else 1e-300):
             return False
     return True
 
 
-def table_agree(impl, model, arity, zero_sign=False):
+def table_agree(impl, model, arity, zero_sign=False, exact=False):
     """impl = `arr(shape:v..)|tbl(k=v;..)` (or err/panic); model = parr/arr of labels.  The expected element at
     each position is the table entry of the label (pair) the model places there."""
     res, _, tbl = impl.partition("|tbl(")
     single = ")|ref32(" in tbl
     tbl, _, ref = tbl.partition(")|ref32(" if single else ")|ref(")
-    if ref and not ref_agree(tbl, ref.rstrip(")"), single, zero_sign):
+    if ref and not ref_agree(tbl, ref.rstrip(")"), single, zero_sign, exact):
         return False
     if not res.startswith("arr("):
         return canon(res) == canon(model)
